@@ -48,9 +48,14 @@ def _ev(t, val):
     return None
 
 
-def _coef_target(t):
-    s = show(strip(t))
-    return "matval" in s or "tval" in s
+def _coef_target(t, names):
+    """the number is the logical column's coefficient: an element of ILLmatrix::matval, or the local array that the function hands
+    to matrix_addcol as the column's values (discovered, not named)"""
+    from ..core import apath, fields_of
+    p = apath(t)
+    if any(x.endswith("ILLmatrix::matval") for x in fields_of(p[2])):
+        return True
+    return p[0] == "l" and p[1] in names
 
 
 def run(prog, prefix="mpq_", rule="R-SENSEMAP"):
@@ -59,11 +64,19 @@ def run(prog, prefix="mpq_", rule="R-SENSEMAP"):
     table = collections.defaultdict(dict)
     for fn in BUILDERS:
         f = prog.require_fn(prefix + fn)
+        names = set()
+        for b, i, c in f.calls():
+            if (callee(c) or "").endswith("matrix_addcol") and c[3]:
+                a = strip(c[3][-1])
+                while isinstance(a, list) and a and a[0] in ("u", "i"):
+                    a = strip(a[2] if a[0] == "u" else a[1])
+                if is_var(a, kind="l"):
+                    names.add(a[2])
         for letter, val in LETTERS.items():
             signs = set()
 
-            def xfer(b, i, e, st, signs=signs):
-                if e[0] == "C" and e[1][3] and _coef_target(e[1][3][0]):
+            def xfer(b, i, e, st, signs=signs, names=names):
+                if e[0] == "C" and e[1][3] and _coef_target(e[1][3][0], names):
                     n = callee(e[1])
                     if n == "mpq_set_ui" and len(e[1][3]) >= 3:
                         a, d = const_of(e[1][3][1]), const_of(e[1][3][2])
